@@ -437,6 +437,10 @@ func iteValue(c *smt.Term, a, b value) value {
 		return b
 	}
 	at, bt := termPair(a, b)
+	if cur != nil && cur.IntMode && ak != types.Bool && !isIntTerm(at) && at.IsConst() && bt.IsConst() {
+		// both alternatives concrete: in Int mode the choice must be an Int term too
+		at, bt = smt.IntConst(intOfConst(a)), smt.IntConst(intOfConst(b))
+	}
 	return fromTerm(smt.Ite(c, at, bt), ak)
 }
 
